@@ -1,70 +1,81 @@
 #!/usr/bin/env python3
-"""tools_seedmatrix.py [ids...] — run every confirmed seeded change in /verif/seeded against the check
-of its property (quick tier): apply to /repo, run, undo.  Writes /verif/seeded/results.json and
-/verif/seeded/RESULTS.md.  Extra checks to try for a seed can be given in its meta.json as
-"also_checks": ["C01"]."""
-import json, os, subprocess, sys, time, glob, re
+"""tools_seedmatrix.py [-j N] [--tier quick] [ids...] — run every confirmed seeded change in
+/verif/seeded against the check of its property: a scratch worktree of /repo HEAD under /tmp/mx gets
+the patch (patch.rebased.diff when present), `VERIF_REPO=<worktree> VERIF_OUT=<scratch> ./check.sh
+<Cxx> quick` runs there (and, if that misses, the checks named in meta.json "also_checks"), the
+worktree is removed.  /repo itself and /verif/evidence are not touched.  Writes
+/verif/seeded/results.json and /verif/seeded/RESULTS.md.  ids: seed ids (C07-m2) or properties (C07)."""
+import json, os, subprocess, sys, time, glob, re, shutil
+from concurrent.futures import ThreadPoolExecutor
+import threading
+
+GITLOCK = threading.Lock()
 
 SEEDED = "/verif/seeded"
+MX = "/tmp/mx"
 
 
-def sh(cmd, timeout=2400):
-    p = subprocess.run(cmd, shell=True, stdout=subprocess.PIPE, stderr=subprocess.STDOUT, text=True, timeout=timeout)
+def sh(cmd, timeout=3600, env=None):
+    p = subprocess.run(cmd, shell=True, stdout=subprocess.PIPE, stderr=subprocess.STDOUT, text=True, timeout=timeout, env=env)
     return p.returncode, p.stdout
 
 
-def run_check(cid):
+def run_check(cid, wt, out, tier):
     t0 = time.time()
+    env = dict(os.environ, VERIF_REPO=wt, VERIF_OUT=out)
     try:
-        rc, out = sh(f"/verif/check.sh {cid} quick", timeout=2400)
+        rc, o = sh(f"/verif/check.sh {cid} {tier}", timeout=3600, env=env)
     except subprocess.TimeoutExpired:
         return {"check": cid, "outcome": "check-timeout", "seconds": round(time.time() - t0)}
-    vio = [l for l in out.splitlines() if l.startswith("VIOLATION")]
-    classes = re.findall(r"class=(\S+) locus=(\S+)", out)
+    vio = [l for l in o.splitlines() if l.startswith("VIOLATION")]
+    classes = re.findall(r"class=(\S+)(?: locus=(\S+))?", o)
     outcome = "detected" if (rc == 1 and vio) else ("missed" if rc == 0 else f"rc={rc}")
-    return {"check": cid, "outcome": outcome, "seconds": round(time.time() - t0), "signatures": [f"{c}|{l}" for c, l in classes][:6]}
+    r = {"check": cid, "outcome": outcome, "seconds": round(time.time() - t0), "signatures": [f"{c}|{l}" if l else c for c, l in classes][:6]}
+    if outcome.startswith("rc="):
+        r["tail"] = o[-600:]
+    return r
 
 
-def main():
-    only = sys.argv[1:]
-    results = {}
-    rp = f"{SEEDED}/results.json"
-    if os.path.exists(rp):
-        results = json.load(open(rp))
-    for d in sorted(glob.glob(f"{SEEDED}/C*-m*")):
-        sid = os.path.basename(d)
-        if only and sid not in only and sid.split("-")[0] not in only:
-            continue
-        meta = json.load(open(f"{d}/meta.json")) if os.path.exists(f"{d}/meta.json") else {}
-        cid = sid.split("-")[0]
-        patch = f"{d}/patch.rebased.diff" if os.path.exists(f"{d}/patch.rebased.diff") else f"{d}/patch.diff"
-        rc, out = sh(f"git -C /repo apply --check {patch}")
-        entry = {"seed": sid, "property": cid, "patch": os.path.basename(patch)}
+def one(sid, tier):
+    d = f"{SEEDED}/{sid}"
+    meta = json.load(open(f"{d}/meta.json")) if os.path.exists(f"{d}/meta.json") else {}
+    cid = sid.split("-")[0]
+    patch = f"{d}/patch.rebased.diff" if os.path.exists(f"{d}/patch.rebased.diff") else f"{d}/patch.diff"
+    entry = {"seed": sid, "property": cid, "patch": os.path.basename(patch)}
+    for k in ("neutralised_by", "note"):
+        if meta.get(k):
+            entry[k] = meta[k]
+    wt, out = f"{MX}/{sid}", f"{MX}/{sid}.out"
+    with GITLOCK:
+        sh(f"git -C /repo worktree remove --force {wt}; rm -rf {wt} {out}")
+        rc, o = sh(f"git -C /repo worktree add --detach {wt} HEAD")
+    if rc != 0:
+        entry["status"] = "worktree-failed"
+        entry["note"] = o[-200:]
+        return entry
+    try:
+        rc, o = sh(f"git -C {wt} apply {patch}")
         if rc != 0:
             entry["status"] = "does-not-apply-to-head"
-            entry["note"] = out.strip().splitlines()[-1] if out.strip() else ""
-            results[sid] = entry
-            print(sid, entry["status"])
-            continue
-        sh(f"git -C /repo apply {patch}")
-        try:
-            runs = [run_check(cid)]
-            if runs[0]["outcome"] != "detected":
-                for other in meta.get("also_checks", []):
-                    runs.append(run_check(other))
-        finally:
-            sh("git -C /repo checkout -- . && git -C /repo clean -fdq")
+            entry.setdefault("note", o.strip().splitlines()[-1] if o.strip() else "")
+            return entry
+        runs = [run_check(cid, wt, out, tier)]
+        if runs[0]["outcome"] != "detected":
+            for other in meta.get("also_checks", []):
+                runs.append(run_check(other, wt, out, tier))
         entry["runs"] = runs
         entry["status"] = "detected" if any(r["outcome"] == "detected" for r in runs) else "missed"
-        if meta.get("neutralised_by"):
-            entry["neutralised_by"] = meta["neutralised_by"]
-        results[sid] = entry
-        print(sid, entry["status"], [(r["check"], r["outcome"], r["seconds"]) for r in runs])
-        json.dump(results, open(rp, "w"), indent=1)
-    # evidence files were rewritten by mutated runs: restore them from git
-    sh("git -C /verif checkout -- evidence")
-    lines = ["# Seeded changes vs. checks", "", "Every confirmed seeded change (see each directory's meta.json / NOTES.md) applied to /repo HEAD, the quick check of its property run, the change undone.", "",
-             "| seed | property | patch | outcome | detecting check: first signatures | note |", "|---|---|---|---|---|---|"]
+        return entry
+    finally:
+        with GITLOCK:
+            sh(f"git -C /repo worktree remove --force {wt}; rm -rf {wt} {out}")
+
+
+def write_md(results):
+    lines = ["# Seeded changes vs. checks", "",
+             "Every confirmed seeded change (see each directory's meta.json / NOTES.md) applied to a scratch worktree of /repo HEAD, the quick check of its property run against that worktree (tools_seedmatrix.py), the worktree removed.", "",
+             "| seed | patch | outcome | detecting check (s): first signatures | note |", "|---|---|---|---|---|"]
+    n = {"detected": 0, "missed": 0, "other": 0}
     for sid in sorted(results):
         e = results[sid]
         det = ""
@@ -74,9 +85,41 @@ def main():
                 break
         note = e.get("note", "")
         if e.get("neutralised_by"):
-            note = "neutralised by " + e["neutralised_by"]
-        lines.append(f"| {sid} | {e['property']} | {e['patch']} | {e['status']} | {det} | {note} |")
+            note = ("neutralised by " + e["neutralised_by"] + ". " + note).strip()
+        st = e["status"]
+        n[st if st in n else "other"] += 1
+        lines.append(f"| {sid} | {e['patch']} | {st} | {det.replace('|', '/')} | {note.replace('|', '/')} |")
+    lines += ["", f"Summary: {n['detected']} detected, {n['missed']} missed, {n['other']} not applicable to HEAD (of {len(results)})."]
     open(f"{SEEDED}/RESULTS.md", "w").write("\n".join(lines) + "\n")
+
+
+def main():
+    a = sys.argv[1:]
+    j, tier = 3, "quick"
+    while a and a[0].startswith("-"):
+        if a[0] == "-j":
+            j = int(a[1]); a = a[2:]
+        elif a[0] == "--tier":
+            tier = a[1]; a = a[2:]
+        else:
+            raise SystemExit("bad option " + a[0])
+    only = a
+    rp = f"{SEEDED}/results.json"
+    results = json.load(open(rp)) if os.path.exists(rp) else {}
+    sids = []
+    for d in sorted(glob.glob(f"{SEEDED}/C*-m*")):
+        sid = os.path.basename(d)
+        if only and sid not in only and sid.split("-")[0] not in only:
+            continue
+        sids.append(sid)
+    os.makedirs(MX, exist_ok=True)
+    with ThreadPoolExecutor(max_workers=j) as ex:
+        for entry in ex.map(lambda s: one(s, tier), sids):
+            results[entry["seed"]] = entry
+            print(entry["seed"], entry["status"], [(r["check"], r["outcome"], r["seconds"]) for r in entry.get("runs", [])], flush=True)
+            json.dump(results, open(rp, "w"), indent=1)
+            write_md(results)
+    write_md(results)
 
 
 if __name__ == "__main__":
